@@ -122,7 +122,7 @@ def unescapeAux : Nat → Str → Option Str
 def unescape (s : Str) : Option Str := unescapeAux (s.length + 1) s
 
 /-- the grammar's literal actions: `parse_int_value` … `parse_string_literal` -/
-def ofTok : Tok → PR Value
+def ofTok (o : Oracle) : Tok → PR Value
   | .int t =>
     match sliceFrom 1 t with
     | none => .panic .slice
@@ -150,7 +150,11 @@ def ofTok : Tok → PR Value
     | none => .panic .slice
     | some b => match parseDecimal b with
       | some d => .ok (.dec d) []
-      | none => .frontier .strToDec [.str b]
+      | none =>
+        match o .strToDec [.str b] with
+        | some (some v) => .ok v []
+        | some none => .error
+        | none => .frontier .strToDec [.str b]
   | .str t =>
     -- `&value[1..value.len() - 1]`
     if t.length < 2 then .panic .slice
@@ -209,27 +213,37 @@ def multOpOf (s : Str) : Option BinOp :=
 def bitOpOf (s : Str) : Option BinOp :=
   if s = ['&'] then some .bitAnd else if s = ['|'] then some .bitOr else if s = ['^'] then some .bitXor else none
 
+/-- the binary operator tokens of level `k` (1 = and/or … 5 = bitwise) and the node each builds -/
+def binOpAt (k : Nat) (t : Tok) : Option (Expr → Expr → Expr) :=
+  match k, t with
+  | 1, .kw w => if w = "and".toList then some Expr.and else if w = "or".toList then some Expr.or else none
+  | 2, .p s => (eqOpOf s).map mkEq
+  | 3, .p s => (addOpOf s).map (fun o => Expr.bin o)
+  | 4, .p s => (multOpOf s).map (fun o => Expr.bin o)
+  | 5, .p s => (bitOpOf s).map (fun o => Expr.bin o)
+  | _, _ => none
+
 def u64Max : Nat := 2 ^ 64 - 1
 
 mutual
 /-- `Expr` = `IfExpr` -/
-def pIf : Nat → List Tok → PR Expr
+def pIf (orc : Oracle) : Nat → List Tok → PR Expr
   | 0, _ => .error
   | f + 1, ts =>
     match ts with
     | .kw k :: r =>
       if k = "if".toList then
-        match pIf f r with
+        match pIf orc f r with
         | .ok c r1 =>
           match r1 with
           | .kw k1 :: r2 =>
             if k1 = "then".toList then
-              match pIf f r2 with
+              match pIf orc f r2 with
               | .ok t r3 =>
                 match r3 with
                 | .kw k2 :: r4 =>
                   if k2 = "else".toList then
-                    match pIf f r4 with
+                    match pIf orc f r4 with
                     | .ok e r5 => .ok (.ite c t e) r5
                     | other => other
                   else .error
@@ -238,168 +252,95 @@ def pIf : Nat → List Tok → PR Expr
             else .error
           | _ => .error
         | other => other
-      else pLog f ts
-    | _ => pLog f ts
-/-- `LogExpr`: `EqExpr ((and | or) EqExpr)*`, left-associative -/
-def pLog : Nat → List Tok → PR Expr
-  | 0, _ => .error
-  | f + 1, ts =>
-    match pEq f ts with
-    | .ok l r => pLogLoop f l r
-    | other => other
-def pLogLoop : Nat → Expr → List Tok → PR Expr
+      else pBin orc f 1 ts
+    | _ => pBin orc f 1 ts
+/-- the five left-associative binary levels `LogExpr` (1) … `BitExpr` (5): `p_k = p_{k+1} (op_k p_{k+1})*`;
+    level 6 is `ContainsExpr` -/
+def pBin (orc : Oracle) : Nat → Nat → List Tok → PR Expr
   | 0, _, _ => .error
-  | f + 1, acc, ts =>
+  | f + 1, k, ts =>
+    if k ≥ 6 then pContains orc f ts
+    else
+      match pBin orc f (k + 1) ts with
+      | .ok l r => pBinLoop orc f k l r
+      | other => other
+def pBinLoop (orc : Oracle) : Nat → Nat → Expr → List Tok → PR Expr
+  | 0, _, _, _ => .error
+  | f + 1, k, acc, ts =>
     match ts with
-    | .kw k :: r =>
-      if k = "and".toList then
-        match pEq f r with
-        | .ok x r1 => pLogLoop f (.and acc x) r1
-        | other => other
-      else if k = "or".toList then
-        match pEq f r with
-        | .ok x r1 => pLogLoop f (.or acc x) r1
-        | other => other
-      else .ok acc ts
-    | _ => .ok acc ts
-/-- `EqExpr`: `AddExpr ((= | == | != | > | < | >= | <=) AddExpr)*` -/
-def pEq : Nat → List Tok → PR Expr
-  | 0, _ => .error
-  | f + 1, ts =>
-    match pAdd f ts with
-    | .ok l r => pEqLoop f l r
-    | other => other
-def pEqLoop : Nat → Expr → List Tok → PR Expr
-  | 0, _, _ => .error
-  | f + 1, acc, ts =>
-    match ts with
-    | .p s :: r =>
-      match eqOpOf s with
-      | some o =>
-        match pAdd f r with
-        | .ok x r1 => pEqLoop f (mkEq o acc x) r1
+    | t :: r =>
+      match binOpAt k t with
+      | some mk =>
+        match pBin orc f (k + 1) r with
+        | .ok x r1 => pBinLoop orc f k (mk acc x) r1
         | other => other
       | none => .ok acc ts
-    | _ => .ok acc ts
-def pAdd : Nat → List Tok → PR Expr
-  | 0, _ => .error
-  | f + 1, ts =>
-    match pMult f ts with
-    | .ok l r => pAddLoop f l r
-    | other => other
-def pAddLoop : Nat → Expr → List Tok → PR Expr
-  | 0, _, _ => .error
-  | f + 1, acc, ts =>
-    match ts with
-    | .p s :: r =>
-      match addOpOf s with
-      | some o =>
-        match pMult f r with
-        | .ok x r1 => pAddLoop f (.bin o acc x) r1
-        | other => other
-      | none => .ok acc ts
-    | _ => .ok acc ts
-def pMult : Nat → List Tok → PR Expr
-  | 0, _ => .error
-  | f + 1, ts =>
-    match pBit f ts with
-    | .ok l r => pMultLoop f l r
-    | other => other
-def pMultLoop : Nat → Expr → List Tok → PR Expr
-  | 0, _, _ => .error
-  | f + 1, acc, ts =>
-    match ts with
-    | .p s :: r =>
-      match multOpOf s with
-      | some o =>
-        match pBit f r with
-        | .ok x r1 => pMultLoop f (.bin o acc x) r1
-        | other => other
-      | none => .ok acc ts
-    | _ => .ok acc ts
-def pBit : Nat → List Tok → PR Expr
-  | 0, _ => .error
-  | f + 1, ts =>
-    match pContains f ts with
-    | .ok l r => pBitLoop f l r
-    | other => other
-def pBitLoop : Nat → Expr → List Tok → PR Expr
-  | 0, _, _ => .error
-  | f + 1, acc, ts =>
-    match ts with
-    | .p s :: r =>
-      match bitOpOf s with
-      | some o =>
-        match pContains f r with
-        | .ok x r1 => pBitLoop f (.bin o acc x) r1
-        | other => other
-      | none => .ok acc ts
-    | _ => .ok acc ts
+    | [] => .ok acc ts
 /-- `ContainsExpr`: `IndexExpr contains IndexExpr | IndexExpr in IndexExpr | UnaryExpr` — not chainable; a
     leading `-` / `!` can only start the `UnaryExpr` alternative -/
-def pContains : Nat → List Tok → PR Expr
+def pContains (orc : Oracle) : Nat → List Tok → PR Expr
   | 0, _ => .error
   | f + 1, ts =>
     match ts with
     | .p s :: _ =>
-      if s = ['-'] || s = ['!'] then pUnary f ts
-      else pContainsTail f ts
-    | _ => pContainsTail f ts
-def pContainsTail : Nat → List Tok → PR Expr
+      if s = ['-'] || s = ['!'] then pUnary orc f ts
+      else pContainsTail orc f ts
+    | _ => pContainsTail orc f ts
+def pContainsTail (orc : Oracle) : Nat → List Tok → PR Expr
   | 0, _ => .error
   | f + 1, ts =>
-    match pIndex f ts with
+    match pIndex orc f ts with
     | .ok l r =>
       match r with
       | .kw k :: r1 =>
         if k = "contains".toList then
-          match pIndex f r1 with
+          match pIndex orc f r1 with
           | .ok x r2 => .ok (.bin .contains l x) r2
           | other => other
         else if k = "in".toList then
-          match pIndex f r1 with
+          match pIndex orc f r1 with
           | .ok x r2 => .ok (.bin .contains x l) r2
           | other => other
         else .ok l r
       | _ => .ok l r
     | other => other
-def pUnary : Nat → List Tok → PR Expr
+def pUnary (orc : Oracle) : Nat → List Tok → PR Expr
   | 0, _ => .error
   | f + 1, ts =>
     match ts with
     | .p s :: r =>
       if s = ['-'] then
-        match pUnary f r with
+        match pUnary orc f r with
         | .ok e r1 => .ok (.un .neg e) r1
         | other => other
       else if s = ['!'] then
-        match pUnary f r with
+        match pUnary orc f r with
         | .ok e r1 => .ok (.un .not e) r1
         | other => other
-      else pIndex f ts
-    | _ => pIndex f ts
+      else pIndex orc f ts
+    | _ => pIndex orc f ts
 /-- `IndexExpr`: `Term (. IDENT | . INDEX)*` -/
-def pIndex : Nat → List Tok → PR Expr
+def pIndex (orc : Oracle) : Nat → List Tok → PR Expr
   | 0, _ => .error
   | f + 1, ts =>
-    match pTerm f ts with
-    | .ok l r => pIndexLoop f l r
+    match pTerm orc f ts with
+    | .ok l r => pIndexLoop orc f l r
     | other => other
-def pIndexLoop : Nat → Expr → List Tok → PR Expr
+def pIndexLoop (orc : Oracle) : Nat → Expr → List Tok → PR Expr
   | 0, _, _ => .error
   | f + 1, acc, ts =>
     match ts with
     | .p s :: r =>
       if s = ['.'] then
         match r with
-        | .ident k :: r1 => pIndexLoop f (.index acc (.key k)) r1
+        | .ident k :: r1 => pIndexLoop orc f (.index acc (.key k)) r1
         | .index ds :: r1 =>
           -- `usize::from_str(r)` (an error since the fix: commit, a panic before it)
-          if Str.ofDigits ds ≤ u64Max then pIndexLoop f (.index acc (.pos (Str.ofDigits ds))) r1 else .error
+          if Str.ofDigits ds ≤ u64Max then pIndexLoop orc f (.index acc (.pos (Str.ofDigits ds))) r1 else .error
         | _ => .error
       else .ok acc ts
     | _ => .ok acc ts
-def pTerm : Nat → List Tok → PR Expr
+def pTerm (orc : Oracle) : Nat → List Tok → PR Expr
   | 0, _ => .error
   | f + 1, ts =>
     match ts with
@@ -409,7 +350,7 @@ def pTerm : Nat → List Tok → PR Expr
       | .p ['('] :: r1 =>
         match funcOfKw k with
         | some op =>
-          match pIf f r1 with
+          match pIf orc f r1 with
           | .ok e r2 =>
             match r2 with
             | .p [')'] :: r3 => .ok (.un op e) r3
@@ -428,7 +369,7 @@ def pTerm : Nat → List Tok → PR Expr
     | .ident x :: r =>
       match r with
       | .p ['('] :: r1 =>
-        match pIf f r1 with
+        match pIf orc f r1 with
         | .ok e r2 =>
           match r2 with
           | .p [')'] :: r3 => .ok (.call x e) r3
@@ -441,43 +382,43 @@ def pTerm : Nat → List Tok → PR Expr
         | .ident x :: r1 => .ok (.sym x) r1
         | _ => .error
       else if s = ['('] then
-        match pIf f r with
+        match pIf orc f r with
         | .ok e r1 =>
           match r1 with
           | .p [')'] :: r2 => .ok e r2
           | _ => .error
         | other => other
       else if s = ['['] then
-        match pVecItems f r with
+        match pVecItems orc f r with
         | .ok xs r1 => .ok (.vec xs) r1
         | .error => .error
         | .panic x => .panic x
         | .frontier o a => .frontier o a
       else if s = ['{'] then
-        match pMapItems f r with
+        match pMapItems orc f r with
         | .ok kvs r1 => .ok (.map (kvs.foldl (fun m kv => insertSorted kv.1 kv.2 m) [])) r1
         | .error => .error
         | .panic x => .panic x
         | .frontier o a => .frontier o a
       else .error
     | t :: r =>
-      match Lit.ofTok t with
+      match Lit.ofTok orc t with
       | .ok v _ => .ok (.lit v) r
       | .error => .error
       | .panic x => .panic x
       | .frontier o a => .frontier o a
 /-- after `[`: `(Expr ,)* Expr? ]` -/
-def pVecItems : Nat → List Tok → PR (List Expr)
+def pVecItems (orc : Oracle) : Nat → List Tok → PR (List Expr)
   | 0, _ => .error
   | f + 1, ts =>
     match ts with
     | .p [']'] :: r => .ok [] r
     | _ =>
-      match pIf f ts with
+      match pIf orc f ts with
       | .ok e r =>
         match r with
         | .p [','] :: r1 =>
-          match pVecItems f r1 with
+          match pVecItems orc f r1 with
           | .ok es r2 => .ok (e :: es) r2
           | other => other
         | .p [']'] :: r1 => .ok [e] r1
@@ -486,17 +427,17 @@ def pVecItems : Nat → List Tok → PR (List Expr)
       | .panic x => .panic x
       | .frontier o a => .frontier o a
 /-- after `{`: `(IDENT : Expr ,)* (IDENT : Expr)? }` -/
-def pMapItems : Nat → List Tok → PR (List (Str × Expr))
+def pMapItems (orc : Oracle) : Nat → List Tok → PR (List (Str × Expr))
   | 0, _ => .error
   | f + 1, ts =>
     match ts with
     | .p ['}'] :: r => .ok [] r
     | .ident k :: .p [':'] :: r =>
-      match pIf f r with
+      match pIf orc f r with
       | .ok e r1 =>
         match r1 with
         | .p [','] :: r2 =>
-          match pMapItems f r2 with
+          match pMapItems orc f r2 with
           | .ok es r3 => .ok ((k, e) :: es) r3
           | other => other
         | .p ['}'] :: r2 => .ok [(k, e)] r2
@@ -510,16 +451,16 @@ end
 def parseFuel (ts : List Tok) : Nat := 14 * (ts.length + 2)
 
 /-- parse a whole token list as one expression -/
-def parseToks (ts : List Tok) : PR Expr :=
-  match pIf (parseFuel ts) ts with
+def parseToks (o : Oracle) (ts : List Tok) : PR Expr :=
+  match pIf o (parseFuel ts) ts with
   | .ok e [] => .ok e []
   | .ok _ (_ :: _) => .error
   | other => other
 
 /-- `Expr::parse(text)` -/
-def parseExprText (s : Str) : PR Expr :=
+def parseExprText (o : Oracle) (s : Str) : PR Expr :=
   match lex s with
   | none => .error
-  | some ts => parseToks ts
+  | some ts => parseToks o ts
 
 end Reval
